@@ -195,8 +195,12 @@ def check(prog: Program, run: Run) -> None:
     run.rule("C06.R5", "the service binner files a service under the first byte of its request",
              floor=3)
     run.rule("C06.G1", "literal attribute names used by the dispatch code exist", floor=1)
+    run.rule("C06.R6", "the candidate sets the dispatch works on -- the layer's services and its "
+             "global negative responses -- are the inherited ones minus exactly what the parent "
+             "reference excludes for THAT category (wiring shared with C09.R2)", floor=2)
     _walk(prog, run)
     _isolation(prog, run)
+    _candidate_wiring(prog, run)
     # ... and what a candidate raises for bytes it cannot decode IS a DecodeError (anything else
     # passes the per-candidate handlers and aborts the dispatch): C05's escape analysis
     from . import c05
@@ -207,6 +211,22 @@ def check(prog: Program, run: Run) -> None:
     _binner(prog, run)
     common.g1_literal_attrs(prog, run, "C06.G1", ["odxtools/diaglayers/diaglayer.py",
                                                   "odxtools/diagservice.py"])
+
+
+def _candidate_wiring(prog: Program, run: Run) -> None:
+    from . import c09
+    from .common import Run as _Run
+    tmp = _Run(run.prop, run.tier, "", [])
+    tmp.rule("C09.R2", "")
+    c09._wiring(prog, tmp)
+    for i in tmp.instances:
+        if not any(k in i["construct"] for k in ("diag_comms", "global_neg")):
+            continue
+        if i["verdict"] == "holds":
+            run.ok("C06.R6", i["construct"], i["obligation"], i["loc"])
+        else:
+            run.violation("C06.R6", i["construct"], i["aspect"], i["obligation"], i["loc"],
+                          i.get("stmt", ""))
 
 
 def _walk(prog: Program, run: Run) -> None:
